@@ -107,11 +107,24 @@ class Frame:
         return f
 
 
+class _Iter:
+    """iter(<sequence of known structure>): an iterator object with a position, consumed by for loops and next() and resumed
+    where a previous loop left it."""
+
+    def __init__(self, items, pos=0):
+        self.items, self.pos = list(items), pos
+
+    def rest(self):
+        return self.items[self.pos:]
+
+
 def clone(v):
     if isinstance(v, list):
         return [clone(x) for x in v]
     if isinstance(v, dict):
         return {k: clone(x) for k, x in v.items()}
+    if isinstance(v, _Iter):
+        return _Iter(v.items, v.pos)
     return v
 
 
@@ -902,6 +915,24 @@ class Evaluator:
     # ---- loops
     def for_(self, st, fr):
         it = self.expr(st.iter, fr)
+        if isinstance(it, _Iter):
+            # consume the iterator one element at a time: a break leaves the rest for whoever uses the iterator next
+            while it.pos < len(it.items):
+                x = it.items[it.pos]
+                it.pos += 1
+                self.assign(st.target, x, fr)
+                try:
+                    if self.block(st.body, fr):
+                        return True
+                except _Break:
+                    return False
+                except _Continue:
+                    continue
+                if fr.env.pop("__loopctl__", None):
+                    raise AnalysisError("break / continue under a symbolic condition while consuming an iterator object at %s:%d" % (fr.modname, st.lineno))
+            if st.orelse:
+                return self.block(st.orelse, fr)
+            return False
         seq = _concrete_iter(it)
         if seq is None:
             seq = self._bound_length_iter(it)
@@ -1826,6 +1857,19 @@ class Evaluator:
 
     def _extern(self, n, pos, kw, e, fr):
         a0 = pos[0] if pos else None
+        if n == "iter" and len(pos) == 1:
+            if isinstance(a0, _Iter):
+                return a0
+            seq0 = _concrete_iter(a0) if not isinstance(a0, (dict, str, bytes)) else None
+            if seq0 is not None:
+                return _Iter(seq0)
+        if n == "next" and pos and isinstance(a0, _Iter):
+            if a0.pos < len(a0.items):
+                a0.pos += 1
+                return a0.items[a0.pos - 1]
+            if len(pos) > 1:
+                return pos[1]
+            return T("raise", ("StopIteration",))
         if n == "next" and pos:
             seq0 = _concrete_iter(a0) if not isinstance(a0, (str, bytes, dict)) else None
             if seq0 is not None:
@@ -2052,7 +2096,7 @@ class Evaluator:
             for nm in m.assigns:  # module-level constants, in definition order
                 out[nm] = self.const(a0.args[0], nm)
             return out
-        if n == "zip" and pos and all(_concrete_iter(x) is not None and not isinstance(x, dict) for x in pos):
+        if n == "zip" and pos and not any(isinstance(x, (dict, _Iter)) for x in pos) and all(_concrete_iter(x) is not None for x in pos):
             return [tuple(t) for t in zip(*[_concrete_iter(x) for x in pos])]
         if n == "dict" and len(pos) == 1 and not kw:
             seq0 = _concrete_iter(a0) if not isinstance(a0, (dict, str, bytes)) else (list(a0.items()) if isinstance(a0, dict) else None)
@@ -2222,6 +2266,10 @@ def _concrete_iter(it):
         return list(it)
     if isinstance(it, tuple) and it and it[0] in ("#list", "#tuple"):
         return [_unfz(x) for x in it[1:]]
+    if isinstance(it, _Iter):
+        rest = it.rest()
+        it.pos = len(it.items)  # whoever iterates an iterator object to the end exhausts it
+        return rest
     if isinstance(it, range):
         return list(it) if len(it) <= MAX_UNROLL * 8 else None
     if isinstance(it, (bytes, str)):
